@@ -464,6 +464,23 @@ theorem intoEndTagHandler_isSome (e : Element) :
   cases h1 : e.endTagMutations.isSome <;> cases h2 : e.modifiedEndTagName.isSome <;>
     cases h3 : e.endTagHandlers <;> simp
 
+
+/-! ### the `LocalName` adapter on the declared tags -/
+
+/-- declared tags whose hash does not decode back to the declared lower-case name (diagnostics) -/
+def UnhashOkWitness (tags : List (Bytes × Nat)) : List Bytes :=
+  (tags.filter fun t => !(unhash t.2 == t.1 && NameHash.ofBytes t.1 == t.2)).map (·.1)
+
+/-- side-condition on the regenerated tag table: `unhash` inverts `LocalNameHash` on every declared tag -/
+def UnhashOk (tags : List (Bytes × Nat)) : Bool := (UnhashOkWitness tags).isEmpty
+
+/-- **Full_unhash_gen.** On every tag the Rust declares (`declare_tags!`: all names the code tests with
+`tag_is_one_of!`, among them the void elements the VM's stack directive depends on), the name bytes the
+glue hands to the selector VM for a hashed `LocalName` are the declared lower-case name. -/
+theorem Full_unhash_gen : UnhashOk Gen.Tags.tags = true := by decide +kernel
+
+theorem Full_unhash_gen_witness : UnhashOkWitness Gen.Tags.tags = [] := by decide +kernel
+
 /-- **Full_endTagHandler_faithful.** The logging variant used by the glue computes the same end tag
 as `EditModel.EndTagHandler.run` (element.rs:708-720). -/
 theorem Full_endTagHandler_faithful (src : Range) (subs : List (HId × Nat)) (h : EndTagHandler) (s : St) (t : EndTag) :
